@@ -80,6 +80,29 @@ Theorem C18_signed_when_required : forall (P : Type) (p_id : P -> option bytes) 
 Proof. exact signed_when_required. Qed.
 Print Assumptions C18_signed_when_required.
 
+(* Rotate: the signer is the node's only state.  Rotate(sg) installs sg and nothing else, Rotate(nil) is refused; after a
+   rotation — whatever signer, or none, the node had before — an event of a listed type that is not failed is signed by sg *)
+Theorem C18_rotate_installs : forall c sg,
+  let c' := fst (rotate c (Some sg)) in
+  snd (rotate c (Some sg)) = true /\ c_signer c' = Some sg /\ c_sign_types c' = c_sign_types c /\ c_source c' = c_source c /\
+  c_schema c' = c_schema c /\ c_format c' = c_format c /\ c_pred c' = c_pred c /\ valid c' = valid c /\
+  (forall ty, listed c' ty = listed c ty).
+Proof. exact rotate_installs. Qed.
+Print Assumptions C18_rotate_installs.
+Theorem C18_rotate_nil_refused : forall c, rotate c None = (c, false).
+Proof. exact rotate_nil_refused. Qed.
+Print Assumptions C18_rotate_nil_refused.
+Theorem C18_rotated_signer_in_force : forall (P : Type) (p_id : P -> option bytes) (p_data : P -> dimage) cf sg (ev : event P) fresh r oc calls,
+  process p_id p_data (Some (fst (rotate cf (Some sg)))) (Some ev) fresh = (r, oc, calls) -> oc <> OErr ->
+  listed cf (ev_type ev) = true ->
+  (forall v, p_data (ev_payload ev) = DVal v -> wf v) ->
+  exists d h ser,
+    d_ser d = [] /\ d_hmac d = [] /\ sg (enc (c_format cf) d) = SigOk h /\ calls = [enc (c_format cf) d] /\
+    r = Some (formatted_as (fmt_key (c_format cf)) (enc (c_format cf) (with_sig d ser h)) ev) /\
+    ser <> [] /\ Base64.decode ser = Some (enc (c_format cf) d).
+Proof. exact rotated_signer_in_force. Qed.
+Print Assumptions C18_rotated_signer_in_force.
+
 (* every stored document — compact for cloudevents-json, indented for cloudevents-text — is JSON that parses back to the image
    of the document object (its members in order: id, source, specversion "1.0", type, data?, datacontentype, dataschema?, time,
    serialized?, serialized_hmac?) *)
